@@ -104,9 +104,10 @@ func (d *c02Conn) settleOpen() {
 }
 
 type c02Scenario struct {
-	c    cfg
-	keys map[string]struct{}
-	kmu  sync.Mutex
+	ending atomic.Bool // the case is over: the engine is being stopped by the harness
+	c      cfg
+	keys   map[string]struct{}
+	kmu    sync.Mutex
 }
 
 func (s *c02Scenario) key(k string) {
@@ -453,7 +454,7 @@ func runC02Case(c cfg, seed uint64, npeers int, keys map[string]struct{}) (evals
 		onClose: func(cs *connState, gc gnet.Conn, err error) gnet.Action {
 			if d, ok := cs.sc.(*c02Conn); ok {
 				d.closedSeen.Store(true)
-				if !d.closing.Load() {
+				if !d.closing.Load() && !s.ending.Load() {
 					s.fail(mon, cs, d, "connection closed unexpectedly", fmt.Sprintf("OnClose(err=%v) while the peer was still reading and before the output had drained", err))
 				}
 			}
@@ -753,6 +754,7 @@ func runC02Case(c cfg, seed uint64, npeers int, keys map[string]struct{}) (evals
 		}
 	}
 	res.Obs("c02_connections", int64(npeers))
+	s.ending.Store(true)
 	if life != nil {
 		if err := life.stop(10 * time.Second); err != nil {
 			res.Inconc("c02 %s: stop: %v", c, err)
